@@ -56,6 +56,9 @@ CLAIMS = {
  'C14': ("Decides the iff on verify's CFG: one admitting return; for each failing check (malformed header, wrong scheme, invalid-token / oauth / other verifier error, nil info, missing expiration when not allowed, expired beyond skew for every value of AllowMissingExpiration) a three-valued evaluation shows the admitting return unreachable and only the mandated status returned; the scope loop over opts.Scopes lies on every path to admission when options are given and returns 403 at the first miss; expiry test in the documented normal form; the admitted value and the verifier's credential argument are checked; the middleware calls the handler only under code == 0, injects verify's value, challenges only 401/403 with resource_metadata and scope, writes no captured variable (per-request state only). "
          "Not decided: anything about the verifier callback.",
          "scenario-driven three-valued CFG evaluation, guard dominance, captured-variable write rule", "§3 C14"),
+ 'C15': ("Decides must-validate-before-use on the OAuth client flow: every metadata fetch is dominated by a successful https-or-loopback check of the fetched URL; protected-resource metadata is returned only under resource equality with every authorization server scheme- and https-checked; authorization-server metadata only under issuer equality, PKCE and URL validation, (nil,nil) only for 4xx, and its errors are fatal for the caller (no silent fallback); the validation tables cover every *_endpoint/*_uri string field of the metadata structs and every endpoint the client consumes is https-checked; the code exchange is dominated by the state check (fresh rand.Text) and by validateIssuerResponse == nil, whose accept/reject table is evaluated on its CFG; tokenSource has exactly two writers, the exchange one after cfg.Exchange succeeded; the fallback uses the validated server and only without metadata; pre-registered credentials are issuer-bound. "
+         "Not decided: ParseWWWAuthenticate over all header strings; the third-party oauth2 library.",
+         "must-validate-before-use dominance, struct-tag table exhaustiveness, three-valued CFG evaluation of the issuer decision table, field-writer enumeration", "§3 C15"),
 }
 
 REASONS = {}
